@@ -280,6 +280,9 @@ pub enum Forgery {
     /// midpoint outside the (correctly signed) delegation window, "healed" by unsigned top-level
     /// MINT / MAXT / MIDP tags
     WindowHealedByUnsignedTopLevelTags,
+    /// CERT carrying two DELE fields (the attacker's and the genuine one, in either order) next to
+    /// the genuine signature; SREP signed by the attacker's online key
+    CertWithTwoDeles,
 }
 
 /// (R, S) -> (R, S + L): verifies under cofactorless "legacy" arithmetic, not under RFC 8032
@@ -297,7 +300,8 @@ fn s_plus_l(sig: &mut [u8]) -> bool {
     carry == 0
 }
 
-pub const ALL_FORGERIES: [Forgery; 35] = [
+pub const ALL_FORGERIES: [Forgery; 36] = [
+    Forgery::CertWithTwoDeles,
     Forgery::ReplayWithUnsignedTopLevelRoot,
     Forgery::WindowHealedByUnsignedTopLevelTags,
     Forgery::SigSPlusL,
@@ -613,6 +617,25 @@ impl<'a> Forger<'a> {
                 }
                 let d = if p == Proto::Ietf { crate::refimpl::codec::frame(&m.encode()) } else { m.encode() };
                 (d, format!("MIDP {} outside the signed window [{}, {}], with unsigned top-level MINT/MAXT/MIDP that would fit", b.midp, mint, maxt))
+            }
+            Forgery::CertWithTwoDeles => {
+                let evil_online = self.evil.online();
+                let genuine_dele = parts.dele.encode();
+                let mut evil_dele = parts.dele.clone();
+                evil_dele.set(PUBK, &evil_online.public());
+                parts.resign_srep(&evil_online);
+                let mut cert = RefMsg::new();
+                cert.set(SIG, &parts.cert_sig);
+                let attacker_first = rng.chance(1, 2);
+                let (a, b) = if attacker_first { (evil_dele.encode(), genuine_dele) } else { (genuine_dele, evil_dele.encode()) };
+                cert.fields.push((DELE, a));
+                cert.fields.push((DELE, b));
+                let d0 = parts.assemble();
+                let payload = if p == Proto::Ietf { crate::refimpl::codec::unframe(&d0).ok()?.to_vec() } else { d0 };
+                let mut m = RefMsg::decode(&payload).ok()?;
+                m.set(CERT, &cert.encode());
+                let d = if p == Proto::Ietf { crate::refimpl::codec::frame(&m.encode()) } else { m.encode() };
+                (d, format!("CERT = {{SIG genuine, DELE x2 (attacker's {}), SREP signed by the attacker's key}}", if attacker_first { "first" } else { "second" }))
             }
             Forgery::SigSPlusL => {
                 if !s_plus_l(&mut parts.sig) {
@@ -1237,6 +1260,9 @@ fn real_server_part(ctx: &Ctx, out: &mut Out, rng: &mut Rng) {
             let mut cfg = SrvCfg::new(free_port(false), &seed);
             cfg.num_workers = Some(*rng.pick(&[1u32, 2, 4]));
             cfg.batch_size = Some(*rng.pick(&[1u32, 8, 64]));
+            // every other server listens on all local addresses and is addressed by the client as
+            // 127.0.0.2: its replies then come from another source address than the one written to
+            cfg.any_iface = k % 2 == 1;
             match spawn_server(&ctx.bins, &cfg, &ctx.scratch, &format!("c03srv{}", k), None) {
                 Ok(mut sp) => match sp.wait_ready(&pk, Duration::from_secs(10)) {
                     Ok(_) => {
@@ -1252,6 +1278,7 @@ fn real_server_part(ctx: &Ctx, out: &mut Out, rng: &mut Rng) {
             out.inconclusive("real server did not start");
             continue;
         };
+        let mut timeouts_here = 0;
         // neighbours: other clients of the same server, one of them on a well-known source port,
         // keep sending while the project's client runs, so that its requests share batches with theirs
         let nb_stop = std::sync::Arc::new(std::sync::atomic::AtomicBool::new(false));
@@ -1281,7 +1308,10 @@ fn real_server_part(ctx: &Ctx, out: &mut Out, rng: &mut Rng) {
             .collect();
         for proto in [Proto::Classic, Proto::Ietf] {
             for (enc, n) in [(KeyEnc::Hex, 64usize), (KeyEnc::None, 7), (KeyEnc::B64, rng.range(1, 64) as usize), (KeyEnc::HexUpper, 3)] {
-                let mut args: Vec<String> = vec!["127.0.0.1".into(), sp.cfg.port.to_string(), "-p".into(), if proto == Proto::Classic { "0".into() } else { "13".into() }, "-z".into(), "-t".into(), "4".into(), "-n".into(), n.to_string(), "-f".into(), "T=%s.%f".into(), "-j".into()];
+                if sp.cfg.any_iface {
+                    out.obs("real_server_client_runs_addressed_as_127.0.0.2", 1);
+                }
+                let mut args: Vec<String> = vec![if sp.cfg.any_iface { "127.0.0.2".into() } else { "127.0.0.1".into() }, sp.cfg.port.to_string(), "-p".into(), if proto == Proto::Classic { "0".into() } else { "13".into() }, "-z".into(), "-t".into(), "4".into(), "-n".into(), n.to_string(), "-f".into(), "T=%s.%f".into(), "-j".into()];
                 match enc {
                     KeyEnc::Hex => {
                         args.push("-k".into());
@@ -1316,7 +1346,34 @@ fn real_server_part(ctx: &Ctx, out: &mut Out, rng: &mut Rng) {
                 out.case(fnv64(format!("real{}{:?}{:?}{}", k, proto, enc, n).as_bytes()), true);
                 let desc = json!({"kind":"real-server-client","args":args,"exit":code,"stdout":stdout.chars().take(500).collect::<String>(),"stderr":stderr.chars().take(800).collect::<String>()});
                 if stderr.contains("Timeout waiting for response") {
-                    out.inconclusive("client timed out waiting for the real server (datagram loss)");
+                    // a lost datagram, or the client never sees what the server sends? Ask the server
+                    // the same way (same destination address, plain unconnected socket): if it
+                    // answers us, twice, the replies exist and the client is the one not accepting
+                    let host = if sp.cfg.any_iface { "127.0.0.2" } else { "127.0.0.1" };
+                    let mut answered = 0;
+                    for _ in 0..2 {
+                        let s = std::net::UdpSocket::bind("0.0.0.0:0").unwrap();
+                        s.set_read_timeout(Some(Duration::from_millis(1500))).unwrap();
+                        let (pkt, nonce) = make_request(rng, proto, None);
+                        let _ = s.send_to(&pkt, format!("{}:{}", host, sp.cfg.port));
+                        let mut b = vec![0u8; 4096];
+                        if let Ok((l, _)) = s.recv_from(&mut b) {
+                            let view = ReqView { proto, packet: &pkt, nonce };
+                            if verify_response(&view, &b[..l], &pk, Opts { strict: true }).is_ok() {
+                                answered += 1;
+                            }
+                        }
+                    }
+                    timeouts_here += 1;
+                    if answered == 2 && timeouts_here >= 2 {
+                        out.violation(
+                            &format!("C03 client reject honest proto={} origin=real-server why=timeout-although-the-server-answers", proto.name()),
+                            &format!("the client (addressing the server as {}) gave up waiting {} times in a row-of-runs, while the server answers plain requests to the same address with verifying replies", host, timeouts_here),
+                            desc.clone(),
+                        );
+                    } else {
+                        out.inconclusive("client timed out waiting for the real server (datagram loss)");
+                    }
                     continue;
                 }
                 if code != Some(0) || times.len() != n {
